@@ -1032,6 +1032,15 @@ func visitExprHandles(kind ir.ExpressionKind, f func(ir.ExpressionHandle)) {
 		if k.DepthRef != nil {
 			f(*k.DepthRef)
 		}
+		switch lv := k.Level.(type) {
+		case ir.SampleLevelExact:
+			f(lv.Level)
+		case ir.SampleLevelBias:
+			f(lv.Bias)
+		case ir.SampleLevelGradient:
+			f(lv.X)
+			f(lv.Y)
+		}
 	case ir.ExprImageLoad:
 		f(k.Image)
 		f(k.Coordinate)
@@ -1046,6 +1055,11 @@ func visitExprHandles(kind ir.ExpressionKind, f func(ir.ExpressionHandle)) {
 		}
 	case ir.ExprImageQuery:
 		f(k.Image)
+		if q, ok := k.Query.(ir.ImageQuerySize); ok && q.Level != nil {
+			f(*q.Level)
+		}
+	case ir.ExprRayQueryGetIntersection:
+		f(k.Query)
 	case ir.ExprPhi:
 		for _, inc := range k.Incoming {
 			f(inc.Value)
